@@ -221,6 +221,37 @@ where
         }
     }
     check_all(&parts, ctx, None);
+    if ctx.rng.chance(1, 3) {
+        // into_flattened keeps count and order (boxed slice, fixed vector, vector of arrays)
+        let k = ctx.rng.range(0, 9);
+        let vals: Vec<u32> = (0..2 * k).map(|_| ctx.rng.below(E::MODULUS as usize) as u32 % E::MODULUS).collect();
+        let which = ctx.rng.below(3);
+        ctx.begin(format!("into_flattened of {k} arrays [T;2] ({})", ["BumpBox<[[T;2]]>", "FixedBumpVec<[T;2]>", "BumpVec<[T;2]>"][which]));
+        let mut it = vals.chunks(2).map(|c| [E::make(c[0]), E::make(c[1])]);
+        let flat: Part<E, A, S> = match which {
+            0 => Part::Boxed(s.alloc_iter(&mut it).into_flattened()),
+            1 => {
+                let mut f = FixedBumpVec::with_capacity_in(k + ctx.rng.range(0, 3), s);
+                for a in &mut it {
+                    f.push(a);
+                }
+                Part::Fixed(f.into_flattened())
+            }
+            _ => {
+                let mut v = BumpVec::with_capacity_in(k, s);
+                for a in &mut it {
+                    v.push(a);
+                }
+                Part::Vec(v.into_flattened())
+            }
+        };
+        if flat.cap() < flat.slice().len() {
+            ctx.viol("C16", "into_flattened_capacity_below_len".into(), format!("{} < {}", flat.cap(), flat.slice().len()));
+        }
+        parts.push((flat, vals));
+        ctx.rep.count("into_flattened");
+        check_all(&parts, ctx, None);
+    }
     for _ in 0..p.ops.min(40) {
         if ctx.viols > 3 || parts.is_empty() {
             break;
